@@ -13,6 +13,7 @@ dropheld             drop whichever WriteConn is held                  -> droppe
 ext take|release     an outside party takes / returns the write permit -> ok | busy | none | refused
 state                                                                  -> holding=<ids> pending=<ids>
 stress <threads> <p:hold_us:cancel_us|-;…>   oracle-only family (real threads)  -> done n=<k>
+agent <cap> <k> <split> <local>              oracle-only family (real agent)    -> done applied=<k> local=<local>
 ```
 -/
 namespace Driver.C20
@@ -106,6 +107,10 @@ def step (s : State) (toks : List String) : Option (State × String) :=
     let sp := splitList specs ";"
     if sp.isEmpty || !sp.all validSpec then none else
     pure (s, s!"done n={sp.length}")
+  | ["agent", cap, k, split, loc] => do
+    let cap ← cap.toNat?; let k ← k.toNat?; let split ← split.toNat?; let loc ← loc.toNat?
+    if cap = 0 || cap > 64 || k = 0 || k > 64 || split = 0 || split > 3 || loc > 8 then none else
+    pure (s, s!"done applied={k} local={loc}")
   | _ => none
 
 end Driver.C20
